@@ -20,6 +20,21 @@ pub fn spec_column(b: &[u8], off: usize) -> usize {
   col
 }
 
+/// tree-sitter's byte column: bytes since the last newline before `off`
+pub fn byte_column(b: &[u8], off: usize) -> usize {
+  let mut col = 0;
+  let mut i = 0;
+  while i < off {
+    if b[i] == b'\n' {
+      col = 0;
+    } else {
+      col += 1;
+    }
+    i += 1;
+  }
+  col
+}
+
 /// (leading start, trailing end, start_line) of the context window, from the definition:
 /// whole lines covering [s,e) plus `before`/`after` extra lines, clipped at file edges
 pub fn spec_context(b: &[u8], s: usize, e: usize, before: usize, after: usize) -> (usize, usize, usize) {
@@ -89,10 +104,48 @@ mod proofs {
     let off: usize = kani::any();
     kani::assume(off <= len && is_boundary(&buf, len, off));
     let s = unsafe { String::from_utf8_unchecked(buf[..len].to_vec()) };
-    let got = s.get_char_column(0, off);
+    // callers pass tree-sitter's *byte* column of the offset (`Position::column`)
+    let got = s.get_char_column(byte_column(&buf[..len], off), off);
     let want = spec_column(&buf[..len], off);
     kani::cover!(want == 3);
     kani::cover!(want == 1 && off >= 5);
+    assert!(got == want);
+    std::mem::forget(s);
+  }
+
+  /// fixed 12-byte layout (concrete length: DESIGN 3) `x0 <2B> x1 <3B> 😀 x2` with
+  /// x_i in {a, \n}, <2B> in {U+00E9, U+07FF}, <3B> in {U+0800, U+FFFD}: leaders on the
+  /// boundaries between the UTF-8 length classes
+  #[kani::proof]
+  #[kani::unwind(14)]
+  fn c16_char_column_layout12() {
+    let mut buf = [b'a', 0xC3, 0xA9, b'a', 0xE0, 0xA0, 0x80, 0xF0, 0x9F, 0x98, 0x80, b'a'];
+    if kani::any() {
+      buf[0] = b'\n';
+    }
+    if kani::any() {
+      buf[3] = b'\n';
+    }
+    if kani::any() {
+      buf[11] = b'\n';
+    }
+    if kani::any() {
+      buf[1] = 0xDF;
+      buf[2] = 0xBF;
+    }
+    if kani::any() {
+      buf[4] = 0xEF;
+      buf[5] = 0xBF;
+      buf[6] = 0xBD;
+    }
+    let len = 12;
+    let off: usize = kani::any();
+    kani::assume(off <= len && is_boundary(&buf, len, off));
+    let s = unsafe { String::from_utf8_unchecked(buf.to_vec()) };
+    let got = s.get_char_column(byte_column(&buf, off), off);
+    let want = spec_column(&buf, off);
+    kani::cover!(want == 5);
+    kani::cover!(want == 2 && off >= 8);
     assert!(got == want);
     std::mem::forget(s);
   }
@@ -116,6 +169,48 @@ mod proofs {
     assert!(dc.matched.as_bytes() == &buf[s..e]);
     assert!(dc.start_line == line);
     std::mem::forget(g);
+  }
+
+  /// the same on texts of exactly N bytes (concrete length: a heavier implementation that
+  /// would exhaust the engine on symbolic-length text is still decided, DESIGN 3)
+  fn display_exact<const N: usize>() {
+    let mut buf = [b'a'; N];
+    let mut i = 0;
+    while i < N {
+      if kani::any() {
+        buf[i] = b'\n';
+      }
+      i += 1;
+    }
+    let len = N;
+    let s: usize = kani::any();
+    let e: usize = kani::any();
+    let before: usize = kani::any();
+    let after: usize = kani::any();
+    kani::assume(s <= e && e <= len && before <= 2 && after <= 2);
+    let src = as_str(&buf, len);
+    let g = mk_grep(src, single_node(&buf[..len], s as u32, e as u32));
+    let dc = g.root().display_context(before, after);
+    let (lead, trail, line) = spec_context(&buf[..len], s, e, before, after);
+    kani::cover!(lead > 0 && trail < len);
+    kani::cover!(line > 0);
+    assert!(dc.leading.as_bytes() == &buf[lead..s]);
+    assert!(dc.trailing.as_bytes() == &buf[e..trail]);
+    assert!(dc.matched.as_bytes() == &buf[s..e]);
+    assert!(dc.start_line == line);
+    std::mem::forget(g);
+  }
+
+  #[kani::proof]
+  #[kani::unwind(8)]
+  fn c16_display_context_len3() {
+    display_exact::<3>();
+  }
+
+  #[kani::proof]
+  #[kani::unwind(8)]
+  fn c16_display_context_len5() {
+    display_exact::<5>();
   }
 
   #[kani::proof]
